@@ -12,6 +12,7 @@
 #define VIEW "c99"
 #endif
 static unsigned long long hmix(unsigned long long h, const void* p, size_t n) { const unsigned char* c = (const unsigned char*)p; size_t i; for (i = 0; i < n; i++) { h = (h ^ c[i]) * 1099511628211ULL; } return h; }
+static const unsigned short* r16(const TorusPolynomial* p, unsigned short* q) { int i; for (i = 0; i < p->N; i++) q[i] = (unsigned short)((((unsigned)p->coefsT[i]) + 0x8000u) >> 16); return q; }
 static void obs(const char* key, unsigned long long h) { printf("{\"e\":\"Obs\",\"view\":\"%s\",\"key\":\"%s\",\"val\":[%u,%u]}\n", VIEW, key, (unsigned)(h & 0x7fffffff), (unsigned)((h >> 31) & 0x7fffffff)); }
 int main(int argc, char** argv) {
     (void)argc; (void)argv;
@@ -44,6 +45,27 @@ int main(int argc, char** argv) {
         f = open_memstream(&buf, &len); export_tfheGateBootstrappingCloudKeySet_toFile(f, &sk->cloud); fclose(f);
         h = hmix(7, buf, len); obs("V:cloud_export", h); obs("P:cloud_export_len", (unsigned long long)len); free(buf);
         delete_gate_bootstrapping_ciphertext_array(3, c); delete_gate_bootstrapping_secret_keyset(sk); delete_gate_bootstrapping_parameters(p);
+    }
+    {   /* the public polynomial / Lagrange API on small inputs: the exact product is far below the rounding threshold of every FFT, so each variant must
+           return the same polynomial (portable observations): sparse ternary integer polynomial times torus values that are multiples of 2^16 */
+        int i; const int N = 1024; unsigned short q16[1024];
+        /* every exact result is a multiple of 2^16; a back-end may be a unit or two of 2^-32 off (C10), so the observation is the result rounded to 2^16 */
+#define R16(poly) r16((poly), q16)
+        IntPolynomial* a = new_IntPolynomial(N); TorusPolynomial* b = new_TorusPolynomial(N); TorusPolynomial* r = new_TorusPolynomial(N); TorusPolynomial* acc = new_TorusPolynomial(N);
+        LagrangeHalfCPolynomial* la = new_LagrangeHalfCPolynomial(N); LagrangeHalfCPolynomial* lb = new_LagrangeHalfCPolynomial(N); LagrangeHalfCPolynomial* lr = new_LagrangeHalfCPolynomial(N);
+        for (i = 0; i < N; i++) { a->coefs[i] = (i % 37 == 0) ? 1 : (i % 53 == 7) ? -1 : 0; b->coefsT[i] = (Torus32)(((unsigned)(i * 2654435761u) >> 20) << 16); acc->coefsT[i] = (Torus32)((unsigned)(i * 40503u) << 16); }
+        torusPolynomialMultFFT(r, a, b); obs("P:fft_mult", hmix(8, R16(r), 2 * (size_t)N));
+        for (i = 0; i < N; i++) r->coefsT[i] = acc->coefsT[i];
+        torusPolynomialAddMulRFFT(r, a, b); obs("P:fft_addmul", hmix(9, R16(r), 2 * (size_t)N));
+        for (i = 0; i < N; i++) r->coefsT[i] = acc->coefsT[i];
+        torusPolynomialSubMulRFFT(r, a, b); obs("P:fft_submul", hmix(10, R16(r), 2 * (size_t)N));
+        IntPolynomial_ifft(la, a); TorusPolynomial_ifft(lb, b);
+        LagrangeHalfCPolynomialMul(lr, la, lb); TorusPolynomial_fft(r, lr); obs("P:lagrange_mul", hmix(11, R16(r), 2 * (size_t)N));
+        TorusPolynomial_ifft(lr, acc); LagrangeHalfCPolynomialAddMul(lr, la, lb); TorusPolynomial_fft(r, lr); obs("P:lagrange_addmul", hmix(12, R16(r), 2 * (size_t)N));
+        TorusPolynomial_ifft(lr, acc); LagrangeHalfCPolynomialSubMul(lr, la, lb); TorusPolynomial_fft(r, lr); obs("P:lagrange_submul", hmix(13, R16(r), 2 * (size_t)N));
+        LagrangeHalfCPolynomialClear(lr); LagrangeHalfCPolynomialAddTo(lr, lb); LagrangeHalfCPolynomialAddTorusConstant(lr, (Torus32)(5u << 24)); TorusPolynomial_fft(r, lr); obs("P:lagrange_addto_const", hmix(14, R16(r), 2 * (size_t)N));
+        delete_LagrangeHalfCPolynomial(la); delete_LagrangeHalfCPolynomial(lb); delete_LagrangeHalfCPolynomial(lr);
+        delete_IntPolynomial(a); delete_TorusPolynomial(b); delete_TorusPolynomial(r); delete_TorusPolynomial(acc);
     }
     return 0;
 }
